@@ -1,0 +1,39 @@
+from math import ceil
+from math import floor
+
+
+def _snap(ratio: float) -> float:
+    # ``time / dt`` evaluated in floating point may land one ulp above or below
+    # the integer it is meant to be (e.g. (5 / 12) / (1 / 12) = 5.000000000000001).
+    # Snap such quotients to the integer before taking ceil or floor.
+    nearest = round(ratio)
+    if abs(ratio - nearest) <= 1e-9 * max(1.0, abs(ratio)):
+        return float(nearest)
+    return ratio
+
+
+def n_time_points(time_horizon: float, dt: float) -> int:
+    """Returns the number of time points ``ceil(time_horizon / dt) + 1``
+    of a simulation over ``time_horizon`` with the interval ``dt``.
+
+    Examples:
+        >>> n_time_points(5 / 250, 1 / 250)
+        6
+        >>> n_time_points(5 / 12, 1 / 12)
+        6
+        >>> n_time_points(0.0201, 0.004)
+        7
+    """
+    return ceil(_snap(time_horizon / dt) + 1)
+
+
+def time_index(time: float, dt: float) -> int:
+    """Returns the index ``floor(time / dt)`` of the time step at ``time``.
+
+    Examples:
+        >>> time_index(43 / 250, 1 / 250)
+        43
+        >>> time_index(0.0101, 0.004)
+        2
+    """
+    return floor(_snap(time / dt))
